@@ -73,6 +73,9 @@ def make_texts(rng, tier):
     fixed = ['rule "x" begin a=1 # end', 'rule "a" begin end rule "a" begin end', "", "   \n\t ", 'rule "" begin end', 'rule "x" salience 99999999999999999999 begin end',
              'rule "x" begin return 1 end trailing garbage', 'rule "x" begin y = 9223372036854775808 end', 'rule "x" begin y = tRuE end', 'rule "x" begin m[""] = 1 end',
              'rule "x" begin end', BASE, BASE + "\nxyz #", BASE + " xyz zzz \u89c4\u5219\n", BASE + " zz", BASE + " 5 $", 'rule "a " begin end rule "a" begin end', 'rule "x" begin /* c */ end', 'rule "x" "d" "e" begin end', 'rule "x" begin a = "unterminated end', 'rule "x" begin a = 1 // c']
+    # string tokens: doubled quotes and backslash pairs inside, names that are nothing but quotes
+    fixed += ['rule "a""b" begin end', 'rule "x" begin y = "q\\"r" end', 'rule "\\"" begin end', 'rule """" begin end', 'rule "a" "d""e" salience 1 begin end', 'rule "a\\" begin end',
+              'rule "a" begin m["""k"] = 1 end', 'rule "a" begin m[""""] = 1 end', 'rule "a""" begin end rule "a" begin end']
     for t in fixed:
         texts.append(("fixed", t))
     # truncations: every token-boundary PREFIX and SUFFIX of one valid two-rule text (a text cut right after `rule`, after the
